@@ -50,6 +50,7 @@ int64_t rt_ts_ns (struct timespec t);
 
 /* ---- scheduling points inside harness code ------------------------------------------- */
 void rt_point (const char *tag);      /* Mode B: hand-off decision; Mode A: maybe delay */
+void rt_yield (void);                 /* polling loops: Mode B forces a switch (and PCT demotes the caller); Mode A sched_yield */
 void rt_sleep_us (unsigned us);       /* Mode A: real sleep; Mode B: advance virtual clock + point */
 void rt_force_fire (void);            /* Mode B: the next scheduling decision fires the earliest pending deadline */
 
@@ -71,6 +72,7 @@ unsigned long rt_thread_sleeps (int tid);
 void rt_wait_quiescent (void);
 int rt_thread_blocked (int tid);      /* valid after rt_wait_quiescent() returned */
 int rt_thread_done (int tid);
+int rt_thread_in_wait (int tid);      /* hint, usable at any time: tid is inside a (modelled or real) futex wait */
 const char *rt_thread_op (int tid);
 
 /* ---- word watching (shim after-hook) ------------------------------------------------- */
